@@ -95,6 +95,9 @@ pub struct Scn {
     pub reset_code: u64,
     /// the transport hands out waiting streams newest first (no order is promised by the h3::quic traits)
     pub newest_first: bool,
+    /// server role: the application drives the connection with the poll API (`poll_accept_request_stream`, the way
+    /// h3-webtransport does) instead of the async `accept()`
+    pub poll_api: bool,
     pub send_credit: u64,
     pub streams: Vec<UniStream>,
     pub style: Style,
@@ -406,7 +409,7 @@ struct Obs {
     probe: Option<Result<u64, ErrInfo>>,
 }
 
-async fn server_app(net: Net, grease: bool, wt: bool, o: Shared<Obs>, sh: Shared<Option<Arc<SharedState>>>) {
+async fn server_app(net: Net, grease: bool, wt: bool, o: Shared<Obs>, sh: Shared<Option<Arc<SharedState>>>, poll_api: bool) {
     let mut b = h3::server::builder();
     b.send_grease(grease).enable_webtransport(wt).enable_extended_connect(wt).enable_datagram(wt);
     let mut conn: ServerConn = match b.build(net.conn(Side::Server)).await {
@@ -418,6 +421,29 @@ async fn server_app(net: Net, grease: bool, wt: bool, o: Shared<Obs>, sh: Shared
     };
     o.borrow_mut().built = true;
     *sh.borrow_mut() = Some(conn.inner.shared.clone());
+    if poll_api {
+        let mut keep = Vec::new();
+        loop {
+            match std::future::poll_fn(|cx| conn.poll_accept_request_stream(cx)).await {
+                Ok(Some(st)) => {
+                    let id = h3::quic::SendStream::<bytes::Bytes>::send_id(&st).into_inner();
+                    o.borrow_mut().accepts.push(Ok(Some(id)));
+                    keep.push(st);
+                }
+                Ok(None) => {
+                    o.borrow_mut().accepts.push(Ok(None));
+                    break;
+                }
+                Err(e) => {
+                    o.borrow_mut().accepts.push(Err(conn_info(&e)));
+                    break;
+                }
+            }
+        }
+        std::future::pending::<()>().await;
+        drop((conn, keep));
+        return;
+    }
     loop {
         match conn.accept().await {
             Ok(Some(r)) => {
@@ -476,7 +502,7 @@ async fn client_app(net: Net, grease: bool, o: Shared<Obs>, sh: Shared<Option<Ar
 fn scn_json(s: &Scn) -> Value {
     json!({
         "role": if s.server { "server" } else { "client" }, "grease": s.grease, "webtransport": s.webtransport,
-        "uni_credit": if s.uni_credit == UNLIMITED { -1 } else { s.uni_credit as i64 }, "uni_frozen": s.uni_frozen, "reset_code": s.reset_code.to_string(), "newest_first": s.newest_first, "send_credit": if s.send_credit == UNLIMITED { -1 } else { s.send_credit as i64 },
+        "uni_credit": if s.uni_credit == UNLIMITED { -1 } else { s.uni_credit as i64 }, "uni_frozen": s.uni_frozen, "reset_code": s.reset_code.to_string(), "newest_first": s.newest_first, "poll_api": s.poll_api, "send_credit": if s.send_credit == UNLIMITED { -1 } else { s.send_credit as i64 },
         "style": format!("{:?}", s.style), "streams": s.streams.iter().map(|st| format!("{:?} form={} end={:?}", st.kind, st.type_form, st.end_after)).collect::<Vec<_>>(),
     })
 }
@@ -593,7 +619,7 @@ pub fn run_scn(s: &Scn, merge: &mut Tape, sched: &mut Tape, ctx: &mut Ctx) -> Ve
     let mut ex = Exec::new();
     let sp = ex.spawner.clone();
     if s.server {
-        ex.spawn("server", server_app(net.clone(), s.grease, s.webtransport, o.clone(), sh.clone()));
+        ex.spawn("server", server_app(net.clone(), s.grease, s.webtransport, o.clone(), sh.clone(), s.poll_api));
     } else {
         ex.spawn("client", client_app(net.clone(), s.grease, o.clone(), sh.clone(), probe.clone(), sp.clone()));
     }
@@ -686,6 +712,9 @@ pub fn run_scn(s: &Scn, merge: &mut Tape, sched: &mut Tape, ctx: &mut Ctx) -> Ve
     }
     if starved {
         ctx.class("credit_starved_hit");
+    }
+    if s.poll_api {
+        ctx.class("server_driven_through_the_poll_api");
     }
     if s.uni_frozen && s.uni_credit == 3 && s.grease {
         ctx.class("grease_stream_blocked_for_ever");
@@ -786,7 +815,7 @@ fn gen(t: &mut Tape, bounded: bool) -> Scn {
     }
     // keep scenarios to at most two violating elements
     loop {
-        let m = model(&Scn { server, grease: false, webtransport: false, uni_credit: UNLIMITED, uni_frozen: false, reset_code: 0x10c, newest_first: false, send_credit: UNLIMITED, streams: streams.clone(), style: Style::Eager, sig: (false, false) });
+        let m = model(&Scn { server, grease: false, webtransport: false, uni_credit: UNLIMITED, uni_frozen: false, reset_code: 0x10c, newest_first: false, poll_api: false, send_credit: UNLIMITED, streams: streams.clone(), style: Style::Eager, sig: (false, false) });
         if m.violations.len() <= 2 || streams.len() <= 1 {
             break;
         }
@@ -802,6 +831,7 @@ fn gen(t: &mut Tape, bounded: bool) -> Scn {
             uni_frozen: credit_mode == 3,
             reset_code: [0x10cu64, 0x100][credit_mode % 2],
             newest_first: credit_mode == 1,
+            poll_api: server && credit_mode == 2,
             send_credit: [UNLIMITED, 0, 5, UNLIMITED][credit_mode],
             streams,
             style: if t.bool() { Style::Tiny } else { Style::Eager },
@@ -820,6 +850,7 @@ fn gen(t: &mut Tape, bounded: bool) -> Scn {
         uni_frozen: credit_mode == 3,
         reset_code: *t.choose(&[0x10cu64, 0x100, 0, 0x104, 0x101, 0x77, (1 << 62) - 1]),
         newest_first: t.chance(1, 4),
+        poll_api: server && t.chance(1, 3),
         send_credit: match credit_mode {
             0 => UNLIMITED,
             1 => 0,
